@@ -39,7 +39,8 @@ def _case(draw, tier):
             "vseed": draw(st.integers(0, 2**20)), "profile": draw(st.sampled_from(tie.PROFILES)),
             "xseed": draw(st.integers(0, 2**20)), "bclass": draw(st.sampled_from(harness.BCLASSES)),
             # torch's default dtype is float32 and discrete data usually comes as integer tensors
-            "f32": draw(st.integers(0, 3)) == 0, "xint": draw(st.integers(0, 2)) == 0}
+            "f32": draw(st.integers(0, 3)) == 0, "xint": draw(st.integers(0, 2)) == 0,
+            "xstrided": draw(st.integers(0, 3)) == 0}
 
 
 @st.composite
@@ -134,6 +135,8 @@ def _run_spec_case(case, f32):
             xt = torch.from_numpy(np.ascontiguousarray(Xv)).to(torch.get_default_dtype())
         from vlib.runner import sut
 
+        if case.get("xstrided") and xt.shape[0] > 1 and xt.shape[1] > 1:
+            xt = xt.t().contiguous().t()  # same values, non-contiguous memory layout (e.g. a slice of a data set)
         with sut(what), torch.no_grad():
             out = cc(xt)
         if f32:  # compare in double precision (exp of a float32 log-value must not underflow here)
@@ -174,6 +177,8 @@ def _run_spec_case(case, f32):
     classes.append("dtype:float32" if f32 else "dtype:float64")
     if xint:
         classes.append("integer-input-tensor")
+    if case.get("xstrided"):
+        classes.append("non-contiguous-input-tensor")
     nontrivial = res == "ok" and "sum" in types and bool(types & {"had", "kro"})
     return {"nontrivial": nontrivial, "classes": classes}
 
